@@ -16,6 +16,7 @@ from pyvc.core import PyRaise
 ID = 'C19'
 MIN_OBLIGATIONS = 15
 TRUSTED = [extlib.TEXT['copy'],
+           'container contracts: list, dict and set hold strong references to their elements; weakref.WeakSet discards an element when no other strong reference to it exists (Python library reference)',
            'threading.Lock used in a with-statement is released on every exit of the block',
            'is_alive()/close()/wait()/terminate() of the registered workers obey their own contracts (C04): they do not raise; '
            'terminate(timeout, force default) leaves process/remote children dead (C04.L4)']
@@ -94,6 +95,8 @@ def build(ex):
                     return 'list'
                 if isinstance(st.value, ast.Dict) and not st.value.keys:
                     return 'dict'
+                if ast.unparse(st.value) in ('weakref.WeakSet()', 'WeakSet()', 'set()'):
+                    return 'weakset' if 'Weak' in ast.unparse(st.value) else 'set'
                 return 'other: ' + ast.unparse(st.value)
         return 'other: no initialiser in the class body'
     REP = representation()
@@ -101,6 +104,8 @@ def build(ex):
     def registry_setup(ex_, env, extra_track=()):
         if REP == 'dict':
             return registry_setup_dict(ex_, env, extra_track)
+        if REP in ('set', 'weakset'):
+            return registry_setup_set(ex_, env, extra_track)
         if REP != 'list':
             from pyvc.core import Undecided
             raise Undecided(f'the registry Worker._active_children is kept in a container without an abstraction function here ({REP})')
@@ -179,7 +184,55 @@ def build(ex):
                            ex_.ghost.get('__cur_node__'), key=('lockdisc', mode, getattr(ex_.ghost.get('__cur_node__'), 'lineno', 0)))
         ex_.ghost['__classattr_access_hook__'] = hook
 
+    def registry_setup_set(ex_, env, extra_track=()):
+        """the registry as a set of workers (set / weakref.WeakSet): registered = member, never more than once"""
+        SetS = z3.ArraySort(Val, smt.Bool)
+        reg = ex_.alloc(HSymSet(ex_.fresh('reg_set', SetS)))
+        ex_.heap[reg.addr].elem_hint = ('abs', 'AWorker')
+        ex_.class_attrs[(W, '_active_children')] = reg
+        lock = VAbs('Lock', Val.v_str(z3.IntVal(smt.str_code('<children_lock>'))))
+        ex_.class_attrs[(W, '_children_lock')] = lock
+        ex_.abs_classes['Lock'].set(ex_, lock, 'held', z3.BoolVal(False))
+        env['e0'] = VSym(ex_.fresh('e0', Val), hint=('abs', 'AWorker'))
+        env['Worker'] = VClass(wci)
+        env['lock'] = lock
+        ex_.ghost['set_at_acquire'] = ex_.heap[reg.addr].dom
+
+        def on_acquire(ex2, lk):
+            # rely: while the lock was free other threads may have registered workers; nothing else touches the registry (for a WeakSet this
+            # rely condition is exactly what `retained` below refutes)
+            cur = ex2.heap[ex2.class_attrs[(W, '_active_children')].addr]
+            dom2 = ex2.fresh('reg_set', SetS)
+            ex2.assume(z3.IsSubset(cur.dom, dom2))
+            cur.dom = dom2
+            ex2.ghost['set_at_acquire'] = dom2
+        ex_.ghost['__on_acquire__'] = on_acquire
+
+        def hook(interp, key, mode):
+            if key == (W, '_active_children'):
+                held = ex_.abs_classes['Lock'].get(ex_, lock, 'held')
+                ex_.oblige('lock', held, f'{mode} of Worker._active_children happens with Worker._children_lock held',
+                           ex_.ghost.get('__cur_node__'), key=('lockdisc', mode, getattr(ex_.ghost.get('__cur_node__'), 'lineno', 0)))
+        ex_.ghost['__classattr_access_hook__'] = hook
+
+    def retained(c):
+        # the rely condition every lemma of C19 uses between two critical sections: a registered worker stays in the container until THIS module removes
+        # it.  It is a property of the container, taken from the container's documented contract (trusted): list, dict and set hold strong references;
+        # a weakref.WeakSet drops an element as soon as nobody else refers to it - a running thread/process does not keep its Worker object alive.
+        if REP in ('list', 'dict', 'set'):
+            return z3.BoolVal(True)
+        if REP == 'weakset':
+            return z3.BoolVal(False)
+        from pyvc.core import Undecided
+        raise Undecided(f'no container contract for the registry ({REP})')
+    retained.__doc__ = ('rely condition of L1-L3 (container contract): between two critical sections a registered worker stays in the registry\'s container '
+                        'until this module removes it, whether or not the caller still refers to it (the property is about the workers that are ALIVE, '
+                        'not about those the caller happens to hold)')
+
     def reg_count(ex_, x, when='now'):
+        if REP in ('set', 'weakset'):
+            dom = ex_.heap[ex_.class_attrs[(W, '_active_children')].addr].dom if when == 'now' else ex_.ghost['set_at_acquire']
+            return z3.If(z3.Select(dom, x), z3.IntVal(1), z3.IntVal(0))
         """how often x is registered: occurrences in the sequence / number of keys holding it"""
         from pyvc.interp_data import cnt_f
         if REP == 'dict':
@@ -225,7 +278,7 @@ def build(ex):
         params={'child': ('abs', 'AWorker')},
         setup=lambda ex_, env: registry_setup(ex_, env, extra_track=[lower(env['child'], ex_)]),
         ensures=(['Worker._active_children == (reg_at_acquire + (child,) if cnt(child, reg_at_acquire) == 0 else reg_at_acquire)'] if REP == 'list'
-                 else [registered_once]),
+                 else [registered_once]) + [retained],
         all_exits=['not lock.held'],
         raises={}, raises_only=[])
 
